@@ -176,6 +176,7 @@ def main():
     ap.add_argument('--props', nargs='*')
     ap.add_argument('-j', type=int, default=None)
     ap.add_argument('-v', action='store_true')
+    ap.add_argument('--catalogue', default=None, help='write a markdown table: case -> verdict -> reporting rule instances')
     args = ap.parse_args()
     results, wall = run_all(args.repo, args.only, args.j, args.props)
     counts = {}
@@ -186,6 +187,17 @@ def main():
                 r['result'], r['id'], r['expect'], r.get('rule'), r.get('reported'), r.get('why') or '',
                 r.get('errors') or ''))
     print('selftest: %d cases in %.1fs: %s' % (len(results), wall, json.dumps(counts, sort_keys=True)))
+    if args.catalogue:
+        cases = {c['id']: c for c in load_cases()}
+        with open(args.catalogue, 'w') as fh:
+            fh.write('# Self-test catalogue (generated by `sa/selftest.py --catalogue`)\n\n')
+            fh.write('%d cases: %s\n\n' % (len(results), json.dumps(counts, sort_keys=True)))
+            fh.write('Mutants (must be reported) and the rule instances that report them; equivalents (must stay silent).\n\n')
+            fh.write('| case | file | expect | result | reported by |\n|---|---|---|---|---|\n')
+            for r in sorted(results, key=lambda r: (r['expect'] != 'report', r['id'])):
+                c = cases.get(r['id'], {})
+                rep = ', '.join('`%s`' % k for k in (r.get('reported') or [])[:4])
+                fh.write('| %s | %s | %s | %s | %s |\n' % (r['id'], c.get('path', ''), r['expect'], r['result'], rep))
     bad = sum(v for k, v in counts.items() if k in ('MISS', 'FALSE-ALARM', 'MISS-ERROR', 'ERROR'))
     return 1 if bad else 0
 
